@@ -549,9 +549,23 @@ class Engine:
         if self.pure:
             terms = []
             s = st
-            for v in node.values:
-                (s, x), = self.ev(v, s, fi)
-                terms.append(self.truth(s, x))
+            added = []
+            try:
+                for v in node.values:
+                    (s, x), = self.ev(v, s, fi)
+                    t = self.truth(s, x)
+                    terms.append(t)
+                    # short-circuit reading: a later operand of `and` (`or`) is read under the earlier ones being true (false);
+                    # only used to simplify its terms (e.g. guarded list indices) - the assumption does not stay on the path
+                    g = t if is_and else z3.Not(t)
+                    s.pc.append(g)
+                    added.append(g)
+            finally:
+                for g in added:
+                    for ix in range(len(s.pc) - 1, -1, -1):
+                        if s.pc[ix] is g:
+                            del s.pc[ix]
+                            break
             return [(s, SBool(z3.And(*terms) if is_and else z3.Or(*terms)))]
         # Python semantics: returns the deciding operand; we fork on truthiness
         results = self.ev(node.values[0], st, fi)
